@@ -144,7 +144,7 @@ pub fn read_engine(eg: &EGraph) -> RawDb {
         let mut rows = Vec::new();
         let mut problems = Vec::new();
         if is_ctor {
-            let _ = eg.constructor_enodes(&name, |en| {
+            let r = eg.constructor_enodes(&name, |en| {
                 let args = en
                     .children
                     .iter()
@@ -158,8 +158,11 @@ pub fn read_engine(eg: &EGraph) -> RawDb {
                     subsumed: en.subsumed,
                 });
             });
+            if let Err(e) = r {
+                problems.push(format!("name-indexed read of {name} failed: {}", e.to_string().lines().next().unwrap_or("")));
+            }
         } else {
-            let _ = eg.function_entries(&name, |fe| {
+            let r = eg.function_entries(&name, |fe| {
                 let args = fe
                     .inputs
                     .iter()
@@ -173,6 +176,9 @@ pub fn read_engine(eg: &EGraph) -> RawDb {
                     subsumed: fe.subsumed,
                 });
             });
+            if let Err(e) = r {
+                problems.push(format!("name-indexed read of {name} failed: {}", e.to_string().lines().next().unwrap_or("")));
+            }
         }
         db.problems.extend(problems);
         db.tables.push(RawTable {
